@@ -11,6 +11,7 @@ EXTENDS Match, Json, TLC
 
 CONSTANTS MaxRoutes,    \* routes per table
           MaxGone,      \* routes that were added and deleted again (`route del`) before the lookup
+          MaxBad,       \* 0, or 2: a later configuration document of two routes + one invalid entry is refused
           ObsSel,       \* observers that may read the installed table before the lookup
           MaxObs,       \* how many of them
           PatSel,       \* indices into PatU usable in this run
@@ -111,6 +112,7 @@ MCMiniPats  == {1, 2, 3, 4, 6, 13, 17}
 MCMiniPaths == {1, 2, 4, 6}
 MCTinyPats  == {1, 2, 3}
 MCTinyPaths == {1, 2, 3}
+MCTwoPats   == {1, 2}
 
 \* The table a request is looked up in is what a HISTORY of route commands has left: the
 \* routes that were added and still have a target.  A route whose targets were all deleted
@@ -122,8 +124,9 @@ MCTinyPaths == {1, 2, 3}
 VARIABLES tbl,    \* set of route indices: the routes of the table
           gone,   \* routes that were added and then deleted (history; they are not in the table)
           seenBy, \* observers that have read the installed table so far
+          bad,    \* routes of a LATER configuration that was refused (it had an invalid entry after them)
           ph      \* "build" | "ask" | "done"
-vars == <<tbl, gone, seenBy, ph>>
+vars == <<tbl, gone, seenBy, bad, ph>>
 MCNoObs  == {}
 MCAllObs == {"String", "Dump", "api-routes", "api-routes-raw"}
 
@@ -166,26 +169,31 @@ ExpectSni(t, h) ==
 
 CaseJson(hi, tls) ==
     LET t == Table(tbl) IN
-    [t |-> tbl, d |-> gone, o |-> seenBy, h |-> hi, tls |-> IF tls THEN 1 ELSE 0,
+    [t |-> tbl, d |-> gone, o |-> seenBy, b |-> bad, h |-> hi, tls |-> IF tls THEN 1 ELSE 0,
      w |-> Rows(tbl, hi, tls),
      sni |-> ExpectSni(t, HostU[hi])]
 
-Init == tbl = {} /\ gone = {} /\ seenBy = {} /\ ph = "build" /\ PrintT(ToJson(Universe))
+Init == tbl = {} /\ gone = {} /\ seenBy = {} /\ bad = {} /\ ph = "build" /\ PrintT(ToJson(Universe))
+\* A configuration that is refused (one of its entries is invalid) changes nothing: the table in
+\* force stays the last one that was accepted, whatever valid entries preceded the invalid one.
+RejectDoc(i, j) == /\ ph = "ask" /\ MaxBad = 2 /\ bad = {} /\ seenBy = {} /\ i < j /\ RPat(i) = RPat(j)   \* two routes of one host
+                   /\ bad' = {i, j} /\ UNCHANGED <<tbl, gone, seenBy, ph>>
 Observe(o) == /\ ph = "ask" /\ o \in ObsSel \ seenBy /\ Cardinality(seenBy) < MaxObs
-              /\ seenBy' = seenBy \cup {o} /\ UNCHANGED <<tbl, gone, ph>>
+              /\ seenBy' = seenBy \cup {o} /\ UNCHANGED <<tbl, gone, bad, ph>>
 \* route add
 Grow(i) == /\ ph = "build" /\ Cardinality(tbl) < MaxRoutes /\ i \notin tbl \cup gone
-           /\ tbl' = tbl \cup {i} /\ ph' = ph /\ gone' = gone /\ seenBy' = seenBy
+           /\ tbl' = tbl \cup {i} /\ ph' = ph /\ gone' = gone /\ seenBy' = seenBy /\ bad' = bad
 \* route del of everything route i has
 Retire(i) == /\ ph = "build" /\ i \in tbl /\ Cardinality(gone) < MaxGone
-             /\ tbl' = tbl \ {i} /\ gone' = gone \cup {i} /\ ph' = ph /\ seenBy' = seenBy
-Seal == ph = "build" /\ tbl # {} /\ ph' = "ask" /\ tbl' = tbl /\ gone' = gone /\ seenBy' = seenBy
+             /\ tbl' = tbl \ {i} /\ gone' = gone \cup {i} /\ ph' = ph /\ seenBy' = seenBy /\ bad' = bad
+Seal == ph = "build" /\ tbl # {} /\ ph' = "ask" /\ tbl' = tbl /\ gone' = gone /\ seenBy' = seenBy /\ bad' = bad
 Ask(hi, tls) == /\ ph = "ask"
                 /\ PrintT(ToJson(CaseJson(hi, tls)))
-                /\ ph' = "done" /\ tbl' = tbl /\ gone' = gone /\ seenBy' = seenBy
+                /\ ph' = "done" /\ tbl' = tbl /\ gone' = gone /\ seenBy' = seenBy /\ bad' = bad
 Next == \/ \E i \in RouteIds : Grow(i)
         \/ \E i \in RouteIds : Retire(i)
         \/ \E o \in ObsSel : Observe(o)
+        \/ \E i, j \in RouteIds : RejectDoc(i, j)
         \/ Seal
         \/ \E hi \in HostSel, tls \in BOOLEAN : Ask(hi, tls)
 Spec == Init /\ [][Next]_vars
@@ -194,12 +202,12 @@ Spec == Init /\ [][Next]_vars
 \* are printed by a single action
 AskAll == /\ ph = "ask"
           /\ \A hi \in HostSel, tls \in BOOLEAN : PrintT(ToJson(CaseJson(hi, tls)))
-          /\ ph' = "done" /\ tbl' = tbl /\ gone' = gone /\ seenBy' = seenBy
+          /\ ph' = "done" /\ tbl' = tbl /\ gone' = gone /\ seenBy' = seenBy /\ bad' = bad
 SimNext == (\E i \in RouteIds : Grow(i)) \/ (\E i \in RouteIds : Retire(i)) \/ Seal \/ AskAll
 SimSpec == Init /\ [][SimNext]_vars
 
 \* the same enumeration without printing, for the well-definedness check
-QInit == tbl = {} /\ gone = {} /\ seenBy = {} /\ ph = "build"
+QInit == tbl = {} /\ gone = {} /\ seenBy = {} /\ bad = {} /\ ph = "build"
 QNext == (\E i \in RouteIds : Grow(i)) \/ (\E i \in RouteIds : Retire(i)) \/ (\E o \in ObsSel : Observe(o)) \/ Seal
 \* reading does not change the table (and hence no answer)
 ObserveInv == [][(\E o \in ObsSel : Observe(o)) => tbl' = tbl /\ gone' = gone]_vars
